@@ -127,6 +127,11 @@ pub fn triple() -> BoxedStrategy<[f32; 3]> {
         1 => Just([1.0f32, 0.0, 0.0]),
         // the program's own built-in default for RED1 / RED2: a user value equal to the default is still a user value
         2 => Just([0.0f32, 1.3, 0.3]),
+        // factors below the three decimals the emitted files print (not all zero): they print as 0.000
+        1 => (0u32..=4, 0u32..=4, 1u32..=4).prop_map(|(a, b, c)| {
+            let t = |x: u32| format!("0.{:04}", x).parse::<f32>().unwrap();
+            [t(a), t(b), t(c)]
+        }),
         22 => (one.clone(), one.clone(), one).prop_map(|(a, b, c)| [milli_f32(a), milli_f32(b), milli_f32(c)]),
     ]
     .boxed()
